@@ -416,3 +416,68 @@ pub fn case_default_of_self() -> Vec<ValD> {
     a.shrink(); b.shrink(); c.shrink();
     vec![a, b, c]
 }
+pub fn case_more_option_a() -> Vec<String> {
+    let a: Option<String> = Some("x".to_owned());
+    let n: Option<String> = None;
+    let r: Option<Result<i64, String>> = Some(Ok(3));
+    let e: Option<Result<i64, String>> = Some(Err("bad".to_owned()));
+    vec![format!("{:?}", a.as_deref()), format!("{:?}", n.as_deref()), format!("{:?}", a.is_some()), format!("{:?}", r.transpose()), format!("{:?}", e.transpose()),
+         format!("{:?}", a.clone().into_iter().chain(n.clone()).collect::<Vec<_>>()), format!("{:?}", a.as_ref().map(|s| s.as_str()).unwrap_or("none")),
+         format!("{:?}", a.iter().cloned().collect::<Vec<String>>()), format!("{:?}", std::ops::Not::not(a.is_none()))]
+}
+pub fn case_find_map_unzip() -> Vec<String> {
+    let v = vec![("a", 1), ("b", 2), ("c", 3)];
+    let (names, nums): (Vec<&str>, Vec<i64>) = v.iter().cloned().unzip();
+    vec![format!("{:?}", v.iter().find_map(|(k, n)| if *n > 1 { Some(*k) } else { None })), format!("{:?}", v.iter().find_map(|(_, n)| if *n > 5 { Some(*n) } else { None })),
+         format!("{:?}", names), format!("{:?}", nums)]
+}
+pub fn case_vec_mut_ends() -> Vec<i64> {
+    let mut v = vec![5, 3, 9, 1];
+    if let Some(f) = v.first_mut() { *f += 10; }
+    if let Some(l) = v.last_mut() { *l = 7; }
+    if let Some(x) = v.get_mut(1) { *x *= 2; }
+    v.sort_unstable();
+    let s = v.as_slice().len() as i64;
+    v.push(s);
+    v
+}
+pub fn case_vec_clear_reuse() -> Vec<String> {
+    let mut v = vec!["a".to_string(), "b".to_string()];
+    let before = v.len();
+    v.clear();
+    v.push("c".to_owned());
+    vec![format!("{}", before), format!("{:?}", v), format!("{}", v.is_empty())]
+}
+pub fn case_map_keys_values() -> Vec<String> {
+    let mut m = std::collections::BTreeMap::new();
+    m.insert("a", 1);
+    m.insert("b", 2);
+    m.insert("c", 3);
+    for v in m.values_mut() { *v *= 10; }
+    if let Some(v) = m.get_mut("b") { *v += 1; }
+    vec![format!("{:?}", m.keys().collect::<Vec<_>>()), format!("{:?}", m.values().collect::<Vec<_>>()), format!("{}", m.contains_key("b")), format!("{}", m.contains_key("z")),
+         format!("{:?}", m.get("b")), format!("{:?}", m.len())]
+}
+pub fn case_set_difference() -> Vec<String> {
+    let a: std::collections::BTreeSet<&str> = ["few", "one", "zero"].into_iter().collect();
+    let b: std::collections::BTreeSet<&str> = ["one", "other"].into_iter().collect();
+    vec![format!("{:?}", a.difference(&b).collect::<Vec<_>>()), format!("{:?}", b.difference(&a).copied().collect::<Vec<_>>()), format!("{}", a.contains("few"))]
+}
+pub fn case_option_get_or_insert() -> Vec<String> {
+    let mut o: Option<Vec<i64>> = None;
+    o.get_or_insert_with(Vec::new).push(1);
+    o.get_or_insert_with(Vec::new).push(2);
+    let mut p: Option<i64> = Some(5);
+    let got = *p.get_or_insert_with(|| 9);
+    vec![format!("{:?}", o), format!("{:?}", p), format!("{}", got)]
+}
+pub fn case_reduce_fold() -> Vec<String> {
+    let v = vec![1, 2, 3, 4];
+    let e: Vec<i64> = vec![];
+    vec![format!("{:?}", v.iter().copied().reduce(|a, b| a * b)), format!("{:?}", e.iter().copied().reduce(|a, b| a * b)), format!("{:?}", v.iter().fold(String::new(), |mut acc, x| { acc.push_str(&x.to_string()); acc })),
+         format!("{:?}", v.iter().rev().skip(1).take(2).collect::<Vec<_>>())]
+}
+pub fn case_str_bytes_cmp() -> Vec<String> {
+    let s = "ab";
+    vec![format!("{:?}", s.as_bytes().len()), format!("{}", s.as_bytes()[1]), format!("{}", "abc".cmp("abd") == std::cmp::Ordering::Less), format!("{}", "b" > "a"), format!("{:?}", "x".to_owned() + "y")]
+}
